@@ -125,6 +125,28 @@ func oracleC02(op string, args []string) string {
 	if o != wantAll {
 		return "FAIL round trip differs: got " + o + " bytes=" + hexs(out)
 	}
+	// two messages in one buffer through the family-level encoder: both must still decode to what was encoded
+	first := map[string][]byte{"gmm": {0x7e, 0x00, 0x4e}, "gsm": {0x2e, 0x01, 0x01, 0xcc}}[fam]
+	_, firstWant := decodeEntry("plain", &first)
+	buf := new(bytes.Buffer)
+	buf.Write(first)
+	var e3 error
+	if fam == "gmm" {
+		e3 = m.GmmMessageEncode(buf)
+	} else {
+		e3 = m.GsmMessageEncode(buf)
+	}
+	if e3 == nil && buf.Len() >= len(first) {
+		all := buf.Bytes()
+		p1 := append([]byte{}, all[:len(first)]...)
+		p2 := append([]byte{}, all[len(first):]...)
+		if _, o1 := decodeEntry("plain", &p1); o1 != firstWant {
+			return "FAIL a message encoded earlier into the same buffer no longer decodes to itself: " + hexs(all)
+		}
+		if _, o2 := decodeEntry("plain", &p2); o2 != wantAll {
+			return "FAIL second message in a shared buffer does not round-trip: " + o2
+		}
+	}
 	return "pass"
 }
 
@@ -509,6 +531,20 @@ func oracleC10(op string, args []string) string {
 				return skip // ill-formed (header names an absent body)
 			}
 			out2, e2 = m.PlainNasEncode()
+			if e1 == nil {
+				// the family-level encoders take the caller's buffer: what is already in it stays, the message is appended
+				buf := new(bytes.Buffer)
+				buf.Write(pre)
+				var e3 error
+				if fam == "gmm" {
+					e3 = m.GmmMessageEncode(buf)
+				} else {
+					e3 = m.GsmMessageEncode(buf)
+				}
+				if e3 == nil && !bytes.Equal(buf.Bytes(), append(append([]byte{}, pre...), out1...)) {
+					return "FAIL family encoder did not append to the supplied buffer: " + hexs(buf.Bytes())
+				}
+			}
 		}
 		if (e1 == nil) != (e2 == nil) || !bytes.Equal(out1, out2) {
 			return "FAIL encoding is not deterministic"
